@@ -17,6 +17,15 @@ Vocabulary (Lemmas/IntSetIterMod.lean, Lemmas/IntSet*.lean)
                              entirely below `lo` — exactly what keeps `start - 1` from underflowing
 * `RangeIter.denote d it`  : the items a state still owes, as an abstract-model expression
 * `RangeIter.Ok it`        : `ExclOk min ranges` for a not-yet-`done` `Exclusive`, `True` otherwise
+* `Iter.take k it` / `Iter.takeBack k it` : the first `k` items of `it` / of `it.rev()` (stop at
+                             the first `None`); `Iter.afterNexts k it` : the state after `k` `next`s
+* `Iter.runSchedule sched it` : an arbitrary interleaving (`true` = `next`, `false` = `next_back`);
+                             per call, which end was asked and what came back
+* `fronts o` / `backs o`   : the values returned by the `next` / `next_back` calls, in call order
+* `dequeRun sched L`, `dequeRest sched L` : the reference deque on `L` (pop head / pop last) and what
+                             it still holds afterwards
+* `Iter.SimF it L` / `Iter.Sim it L` : the machine state `it` still owes exactly `L` (forward-only /
+                             two-sided invariant)
 * `DomWF d`, `IInvD d s`, `RSorted`, `NRInv`, `Asc`, `s.elems d` : as in Props/C14IntSet.lean
 -/
 import FontVerif.Lemmas.IntSetIterMod
@@ -93,5 +102,128 @@ example : (RangeIter.exclusive [(0, 3), (5, 6), (10, 20)] 0 20 false).collect Do
 example : ExclOk 0 [(0, 3), (5, 6), (10, 20)] := by
   refine ⟨by simp, ?_⟩
   intro r hr; simp at hr; rcases hr with rfl | rfl | rfl <;> simp
+
+
+/-! ## iter_yields_members -/
+
+/-- inclusive set (`all_values = None`): forward = the stored values, backward = their reverse -/
+theorem iter_inclusive_yields_members (S : List Nat) (k : Nat) :
+    Iter.take k (Iter.newBidirectional S none) = S.take k ∧
+    Iter.takeBack k (Iter.newBidirectional S none) = S.reverse.take k :=
+  ⟨Iter.take_simF k (Iter.newBidirectional_sim_none S).1,
+   Iter.takeBack_sim k (Iter.newBidirectional_sim_none S)⟩
+
+/-- exclusive set: `Iter::new_bidirectional(S, Some(D))` (both ascending; `S ⊆ D` is NOT needed)
+yields forward the values of `D` not in `S`, backward their reverse — item by item for every `k`;
+and once they are all delivered `next` returns `None` -/
+theorem iter_exclusive_yields_members {S D : List Nat} (hS : Asc S) (hD : Asc D) (k : Nat) :
+    Iter.take k (Iter.newBidirectional S (some D)) =
+      (D.filter (fun x => decide (x ∉ S))).take k ∧
+    Iter.takeBack k (Iter.newBidirectional S (some D)) =
+      (D.filter (fun x => decide (x ∉ S))).reverse.take k ∧
+    ((D.filter (fun x => decide (x ∉ S))).length ≤ k →
+      (Iter.afterNexts k (Iter.newBidirectional S (some D))).next.1 = none) :=
+  ⟨Iter.take_simF k (Iter.newBidirectional_sim hS hD).1,
+   Iter.takeBack_sim k (Iter.newBidirectional_sim hS hD),
+   Iter.next_exhausted k (Iter.newBidirectional_sim hS hD).1⟩
+
+/-- the `iter_after(v)` construction at list level: `Iter::new` over the stored values `> v` and
+the domain values `> v` yields the values of `D` that are `> v` and not in `S` -/
+theorem iter_after_yields_members {S D : List Nat} (hS : Asc S) (hD : Asc D) (v k : Nat) :
+    Iter.take k (Iter.new (S.filter (fun x => decide (x > v)))
+        (some (D.filter (fun x => decide (x > v))))) =
+      (D.filter (fun x => decide (x > v) && decide (x ∉ S))).take k :=
+  Iter.take_simF k (Iter.new_after_simF hS hD v)
+
+/-- connection with the sequence-level model: the machines built by `IntSet::iter()`,
+`.iter().rev()` and `iter_after(v)` (for a domain value `v`, which `value: T` always is) yield
+exactly `iterTake` / `iterBackTake` / `iterAfterTake`, for every `k`, in both membership modes;
+and `iter()` returns `None` once `|members|` items were delivered -/
+theorem iter_yields_members {d : Domain} (hd : DomWF d) {s : IntSet} (h : IInvD d s) (k : Nat) :
+    Iter.take k (s.iterMachine d) = s.iterTake d k ∧
+    Iter.takeBack k (s.iterMachine d) = s.iterBackTake d k ∧
+    (∀ v, d.contains v = true → Iter.take k (s.iterAfterMachine d v) = s.iterAfterTake d v k) ∧
+    ((s.elems d).length ≤ k → (Iter.afterNexts k (s.iterMachine d)).next.1 = none) :=
+  ⟨IntSet.iterMachine_take hd h k, IntSet.iterMachine_takeBack hd h k,
+   fun v hv => IntSet.iterAfterMachine_take hd h hv k,
+   Iter.next_exhausted k (IntSet.iterMachine_sim hd h).1⟩
+
+/-! ## iter_double_ended_consistent -/
+
+/-- every interleaving `sched` of `next` (`true`) / `next_back` (`false`) calls on
+`Iter::new_bidirectional(S, Some(D))`, with `M` = the values of `D` not in `S`:
+* the machine answers exactly like the reference deque on `M`;
+* the `next` results, what is still owed, and the reversed `next_back` results partition `M` in
+  order — so forward results are a prefix of `M`, backward results a prefix of `M.reverse`, no
+  value is returned twice, and front and back never cross;
+* call number `i` returns `Some` iff `i < |M|`: the first `min |sched| |M|` calls deliver, and once
+  front and back have met every further call (from either end) returns `None`. -/
+theorem iter_double_ended_consistent {S D : List Nat} (hS : Asc S) (hD : Asc D)
+    (sched : List Bool) :
+    let M := D.filter (fun x => decide (x ∉ S))
+    let o := (Iter.newBidirectional S (some D)).runSchedule sched
+    o = dequeRun sched M ∧ o.map (·.1) = sched ∧
+    fronts o ++ dequeRest sched M ++ (backs o).reverse = M ∧
+    fronts o <+: M ∧ backs o <+: M.reverse ∧ (fronts o ++ backs o).Nodup ∧
+    (fronts o).length + (backs o).length ≤ M.length ∧
+    o.map (fun p => p.2.isSome) =
+      List.replicate (min sched.length M.length) true ++
+        List.replicate (sched.length - M.length) false := by
+  intro M o
+  have hsim := Iter.newBidirectional_sim hS hD
+  obtain ⟨c1, c2, c3, c4⟩ := Iter.schedule_consistent hsim sched
+  obtain ⟨p1, p2, p3, p4⟩ := Iter.schedule_prefixes hsim (hD.filter _) sched
+  exact ⟨c1, c2, c3, p1, p2, p3, p4, c4⟩
+
+/-- the same for the inclusive machine (`all_values = None`) over ascending stored values `S` -/
+theorem iter_double_ended_consistent_inclusive {S : List Nat} (hS : Asc S) (sched : List Bool) :
+    let o := (Iter.newBidirectional S none).runSchedule sched
+    o = dequeRun sched S ∧ o.map (·.1) = sched ∧
+    fronts o ++ dequeRest sched S ++ (backs o).reverse = S ∧
+    fronts o <+: S ∧ backs o <+: S.reverse ∧ (fronts o ++ backs o).Nodup ∧
+    (fronts o).length + (backs o).length ≤ S.length ∧
+    o.map (fun p => p.2.isSome) =
+      List.replicate (min sched.length S.length) true ++
+        List.replicate (sched.length - S.length) false := by
+  intro o
+  have hsim := Iter.newBidirectional_sim_none S
+  obtain ⟨c1, c2, c3, c4⟩ := Iter.schedule_consistent hsim sched
+  obtain ⟨p1, p2, p3, p4⟩ := Iter.schedule_prefixes hsim hS sched
+  exact ⟨c1, c2, c3, p1, p2, p3, p4, c4⟩
+
+/-- and for `IntSet::iter()` itself, in both modes, against the mathematical member sequence -/
+theorem iter_double_ended_consistent_intset {d : Domain} (hd : DomWF d) {s : IntSet}
+    (h : IInvD d s) (sched : List Bool) :
+    let o := (s.iterMachine d).runSchedule sched
+    o = dequeRun sched (s.elems d) ∧
+    fronts o ++ dequeRest sched (s.elems d) ++ (backs o).reverse = s.elems d ∧
+    (fronts o ++ backs o).Nodup ∧
+    o.map (fun p => p.2.isSome) =
+      List.replicate (min sched.length (s.elems d).length) true ++
+        List.replicate (sched.length - (s.elems d).length) false := by
+  intro o
+  have hsim := IntSet.iterMachine_sim hd h
+  obtain ⟨c1, _, c3, c4⟩ := Iter.schedule_consistent hsim sched
+  obtain ⟨_, _, p3, _⟩ := Iter.schedule_prefixes hsim (elems_asc hd s) sched
+  exact ⟨c1, c3, p3, c4⟩
+
+/-! non-vacuity (the skip loops are defined by well-founded recursion, so the concrete runs are
+obtained through the theorems; `#eval` gives the same values) -/
+
+example : Asc [2, 5, 9] ∧ Asc [1, 2, 3, 5, 7] := by simp [Asc]
+
+example : Iter.take 10 (Iter.newBidirectional [2, 5, 9] (some [1, 2, 3, 5, 7])) = [1, 3, 7] := by
+  rw [(iter_exclusive_yields_members (S := [2, 5, 9]) (D := [1, 2, 3, 5, 7]) (by simp [Asc])
+    (by simp [Asc]) 10).1]; decide
+
+example : Iter.takeBack 10 (Iter.newBidirectional [2, 5, 9] (some [1, 2, 3, 5, 7])) = [7, 3, 1] := by
+  rw [(iter_exclusive_yields_members (S := [2, 5, 9]) (D := [1, 2, 3, 5, 7]) (by simp [Asc])
+    (by simp [Asc]) 10).2.1]; decide
+
+example : (Iter.newBidirectional [2, 5] (some [1, 2, 3, 5, 7])).runSchedule
+    [true, false, false, true, false] =
+    [(true, some 1), (false, some 7), (false, some 3), (true, none), (false, none)] := by
+  rw [(iter_double_ended_consistent (S := [2, 5]) (D := [1, 2, 3, 5, 7]) (by simp [Asc])
+    (by simp [Asc]) _).1]; decide
 
 end FontVerif.C14IterMod
